@@ -139,7 +139,37 @@ let vis_cmd wl ops =
     | _ -> out := "?" :: !out) (split_ops ops);
   String.concat "," (List.rev !out)
 
+(* decimal numbers in this command (see harness/src/scene_kernel.rs) *)
+let scene_cmd rules world scene0 =
+  let ncomps s = if s = "" then [] else List.map (fun kv -> match String.split_on_char '=' kv with
+    | [k; v] -> (n_of_int (int_of_string k), n_of_int (int_of_string v)) | _ -> failwith "kv") (String.split_on_char '+' s) in
+  let groups = if rules = "-" then [] else
+    List.map (fun g -> List.map (fun k -> n_of_int (int_of_string k)) (String.split_on_char '+' g)) (String.split_on_char ';' rules) in
+  let world = if world = "-" then [] else List.map (fun e -> match String.split_on_char ':' e with
+    | [i; m] -> { w_id = n_of_int (int_of_string i); w_marked = (m = "1"); w_comps = [] }
+    | [i; m; cs] -> { w_id = n_of_int (int_of_string i); w_marked = (m = "1"); w_comps = ncomps cs }
+    | _ -> failwith "went") (String.split_on_char ';' world) in
+  let scene0 = if scene0 = "-" then [] else List.map (fun e -> match String.split_on_char ':' e with
+    | [i] -> (n_of_int (int_of_string i), [])
+    | [i; cs] -> (n_of_int (int_of_string i), ncomps cs)
+    | _ -> failwith "sent") (String.split_on_char ';' scene0) in
+  match rules_insert_all [] (List.map rule_new groups) with
+  | Ok rules ->
+    let refl = List.map n_of_int [0; 1; 2; 3] in
+    (match replicate_into_res rules refl [] scene0 world with
+     | Ok sc ->
+       let sc = List.sort (fun (a, _) (b, _) -> compare (int_of_n a) (int_of_n b)) sc in
+       let body = if sc = [] then "-" else String.concat ";" (List.map (fun (i, cs) ->
+         Printf.sprintf "%d:%s" (int_of_n i) (String.concat "+" (List.map (fun (k, v) -> Printf.sprintf "%d=%d" (int_of_n k) (int_of_n v)) cs))) sc) in
+       let rt = List.for_all (fun (_, cs) ->
+         let ks = List.map (fun (k, _) -> int_of_n k) cs in
+         List.length (List.sort_uniq compare ks) = List.length ks && not (List.mem 5 ks)) sc in
+       body ^ (if rt then " rt=ok" else " rt=fail")
+     | Err -> "ERR" | Panic -> "PANIC")
+  | _ -> "ERR"
+
 let handle cmd args = match cmd, args with
+  | "scene", [r; w; s] -> scene_cmd r w s
   | "vis", [wl] -> vis_cmd wl ""
   | "vis", [wl; ops] -> vis_cmd wl ops
   | "cond", [s] -> cond_cmd s
